@@ -112,15 +112,22 @@ func runT(t *testing.T, pg *progT, start uint16, prefix []int) (x *sched.Exec, k
 			}
 			return nil
 		}
+		okBytes := map[*[]byte]int{} // per writer: bytes of the leading writes that returned without error
 		writer := func(sizes []int, tag byte, write func([]byte) (int, error), acc *[]byte, done *atomic.Bool) func() {
 			return func() {
 				off := 0
+				failed := false
 				for _, n := range sizes {
 					b := pattern(tag, off, n)
 					off += n
 					k, err := write(b)
 					accMu.Lock()
 					*acc = append(*acc, b[:k]...)
+					if err == nil && k == len(b) && !failed {
+						okBytes[acc] += k
+					} else {
+						failed = true
+					}
 					accMu.Unlock()
 					if err != nil {
 						exchErr.Store(err.Error())
@@ -223,6 +230,10 @@ func runT(t *testing.T, pg *progT, start uint16, prefix []int) (x *sched.Exec, k
 				kind, detail = "T|not-a-prefix|client->server", fmt.Sprintf("server read % x, client's writes accepted % x", sRead, cAcc)
 			case !bytes.HasPrefix(sAcc, cRead):
 				kind, detail = "T|not-a-prefix|server->client", fmt.Sprintf("client read % x, server's writes accepted % x", cRead, sAcc)
+			case len(sRead) < okBytes[&cAcc]:
+				kind, detail = "T|successful-write-not-delivered|client->server", fmt.Sprintf("the client's writes returned success for %d bytes before the connection ended; the server's reader got %d", okBytes[&cAcc], len(sRead))
+			case len(cRead) < okBytes[&sAcc]:
+				kind, detail = "T|successful-write-not-delivered|server->client", fmt.Sprintf("the server's writes returned success for %d bytes before the connection ended; the client's reader got %d", okBytes[&sAcc], len(cRead))
 			}
 			accMu.Unlock()
 			if kind != "" {
